@@ -295,45 +295,14 @@ example : indexOf { data := some (.dyn 0), buf := [1, 2, 1, 9], size := 3, cap :
 Hypotheses: `0 < itemSize`, `a.mallocMax < 2^32` (then `allocated < 2^32` and `% u32` is the identity),
 `0 < byteSize ≤ 2^64` (the arena computes the slot from `byteSize - 1` modulo `2^64`). -/
 
-/- NOT PROVED (commented out): the tactic proof below elaborates, but the kernel does not finish checking it in 60 s
-(it unfolds `slotIndex`/`% 2^64` terms of the arena while comparing states); it has to be restructured so that
-`freeReusable …`/`allocReusable …` are generalised before any `rfl`/`injection`.
+/-! ## 4 ff.  `reserve_*`, `resize_*`, `insert`, `concat`, `release`, `last_index_of`: `Lemmas/C18Vector2.lean`;
+the sequence theorem `vec_refines_list`: `Lemmas/C18Vector3.lean`.
 
-theorem reserveWithByteSize_spec {a a' : State} {v v' : Vec} {e : Err} {byteSize itemSize n : Nat}
-    (h : reserveWithByteSize a v byteSize itemSize = (a', v', e)) (hw : WF v) (hi : 0 < itemSize)
-    (hm : a.mallocMax < u32) (hb0 : 0 < byteSize) (hb : byteSize ≤ u64) (hn : n * itemSize ≤ byteSize)
-    (hsz : v.size ≤ n) :
-    a'.mallocMax = a.mallocMax ∧ (e = .oom → v' = v) ∧
-    (e = .ok → WF v' ∧ v'.size = v.size ∧ items v' = items v ∧ n ≤ v'.cap) := by
-  simp only [reserveWithByteSize] at h
-  generalize hr : allocReusable a byteSize = r at h
-  obtain ⟨a1, o, alloc⟩ := r
-  have hmm := allocReusable_mallocMax' hr
-  cases o with
-  | none =>
-    simp only at h
-    injection h with h1 h2; injection h2 with h2 h3; subst h1 h2 h3
-    exact ⟨hmm, fun _ => rfl, fun h => by cases h⟩
-  | some p =>
-    have hs := allocReusable_spec hr hb0 hb
-    have hlt : alloc / itemSize < u32 := Nat.lt_of_le_of_lt (Nat.div_le_self _ _) (hs.2.2 hm)
-    have hge : n ≤ alloc / itemSize := (Nat.le_div_iff_mul_le hi).2 (by omega)
-    have hmod : alloc / itemSize % u32 = alloc / itemSize := Nat.mod_eq_of_lt hlt
-    rw [hmod] at h
-    generalize alloc / itemSize = newCap at h hlt hge
-    simp only at h
-    injection h with h1 h2; injection h2 with h2 h3; subst h1 h2 h3
-    have hl := hw.len; have hle := hw.le
-    refine ⟨?_, fun h => by cases h, fun _ => ⟨⟨?_, ?_, ?_, hlt⟩, rfl, ?_, hge⟩⟩
-    · split
-      · rw [freeReusable_mallocMax]; exact hmm
-      · exact hmm
-    · simp only [List.length_append, List.length_take, List.length_replicate]; omega
-    · simp only; omega
-    · intro hd; cases hd
-    · simp only [items]
-      rw [List.take_left' (by simp only [List.length_take]; omega)]
-
--/
+Pitfall recorded here: never let `Meta.whnf` or the kernel evaluate a `match`/`if` whose discriminant is an arena
+call with an open size (`allocReusable a b`, `slotIndex b`): `(b + 2^64 - 1) % 2^64` is then computed by unary
+recursion (`Nat.ble (2^64) …`) and does not terminate in practice.  Symptoms: `unfold`/`simp only [f]`
+(equation-lemma generation) or a final `rfl` hang, `maxHeartbeats` does not fire.  Remedies used: relational
+statements (`f x = (a', o, n) → …`), `simp only`/`split at h`, and for `reserveWithByteSize` the generic copy
+`rwbsG` (see part 2). -/
 
 end AsmjitVerif.Vector
